@@ -148,6 +148,20 @@ def gen_net(ctx, idx):
     return case
 
 
+def gen_uniq(ctx, idx):
+    """plain trunk (trunk_input_copied=False) with ONE location set per function (DeepONetDataset_Unique layout)"""
+    case = gen_net(ctx, 0)
+    rng = ctx.rng
+    case["kind"] = "uniq"
+    case["B"] = B = rng.choice([2, 3, 4])
+    case["params"] = [[dy(rng, -16, 16), dy(rng, -16, 16)] for _ in range(B)]
+    case["primary"] = "tensor3"
+    case["rank"] = "r3uniq"
+    case["xu"] = [[[dy(rng, -32, 32) for _ in range(case["din"])] for _ in range(case["N"])] for _ in range(B)]
+    case["pick"] = [rng.randrange(B), rng.randrange(case["N"])]
+    return case
+
+
 def gen_lin(ctx, idx):
     rng = ctx.rng
     nin, nout = rng.randint(1, 4), rng.randint(1, 4)
@@ -201,6 +215,8 @@ def gen_cases(ctx):
     cases = []
     for i in range(ctx.scale(110, 1200)):
         cases.append(gen_net(ctx, i))
+    for i in range(ctx.scale(30, 300)):
+        cases.append(gen_uniq(ctx, i))
     for i in range(ctx.scale(250, 2500)):
         cases.append(gen_lin(ctx, i))
     for i in range(ctx.scale(60, 600)):
@@ -528,6 +544,63 @@ def run_net(case):
     return res
 
 
+def run_uniq(case):
+    e = env(); tp = e["tp"]; torch = e["torch"]; np = e["np"]
+    T, U, Fo, Ti, Kp = spaces_of(case)
+    res = dict(problems=[])
+    plain, fs = build_net(case, False)
+    B, N, d, K = case["B"], case["N"], case["d"], case["neurons"] // case["d"]
+    try:
+        out = plain(tp.spaces.Points(t64(case["xu"]), T), supply(case, "tensor3", fs)).as_tensor.tolist()
+    except Exception as ex:
+        res["plain"] = "err:" + type(ex).__name__
+        res["problems"].append(f"plain trunk with one location set per function: forward raised {type(ex).__name__}: {str(ex)[:120]}")
+        return res
+    res["plain"] = out
+    if shape_of(out) != [B, N, d]:
+        res["problems"].append(f"output shape {shape_of(out)} for {B} functions with {N} locations each, {d} components")
+        return res
+    bref = ref_mlp(np, case["branch"], [sum(r, []) for r in fn_values(case)]).reshape(B, d, K)
+    want = np.stack([np.einsum("ck,jck->jc", bref[i], ref_mlp(np, case["trunk"], case["xu"][i]).reshape(N, d, K)) for i in range(B)])
+    dd = maxdiff(out, want.tolist())
+    if dd > TOL:
+        o = np.array(out)
+        idx = np.unravel_index(np.argmax(np.abs(o - want) / np.maximum(1, np.abs(want))), want.shape)
+        res["problems"].append(f"plain trunk, one location set per function: output{list(idx)}={o[idx]} is not the inner product of the "
+                               f"branch features of function {idx[0]} and the trunk features of ITS location {idx[1]} ({want[idx]})")
+    i, j = case["pick"]
+    try:
+        o1 = plain(tp.spaces.Points(t64([[case["xu"][i][j]]]), T), supply(case, "tensor3", fs, [case["params"][i]])).as_tensor.tolist()
+        if shape_of(o1) != [1, 1, d] or maxdiff(o1[0][0], out[i][j]) > 1e-10:
+            res["problems"].append(f"function {i} alone at its location {j} alone gives {o1}, in the batch output[{i},{j}]={out[i][j]}")
+    except Exception as ex:
+        res["problems"].append(f"re-batched evaluation raised {type(ex).__name__}: {str(ex)[:120]}")
+    return res
+
+
+def uniq_lines(case):
+    head = f"{case['d']} {case['neurons']} {len(case['pts']) * case['fdim']} " \
+           f"{enc([enc_layer(L, fbits) for L in case['trunk']], str)} {enc([enc_layer(L, fbits) for L in case['branch']], str)} " \
+           f"{enc_t23(case['xu'], fbits)} {enc(fn_values(case), fbits)}"
+    return ["fwd 0 " + head]
+
+
+def judge_uniq(rep, case, res, reply):
+    rep.count(f"uniq:B={case['B']}")
+    for p in res["problems"]:
+        rep.fail(p, case)
+    impl = res["plain"]
+    if reply.startswith("err") or reply.startswith("bad-op"):
+        if not isinstance(impl, str):
+            rep.disagree("DeepONet.forward (plain trunk, per-function locations): model rejects " + reply, case, shape_of(impl), reply)
+        return
+    model = dec_all(reply, 3, unfbits)
+    if isinstance(impl, str):
+        rep.disagree("DeepONet.forward (plain trunk, per-function locations): implementation raised", case, impl, shape_of(model))
+    elif maxdiff(impl, model) > TOL:
+        rep.disagree(f"DeepONet.forward (plain trunk, per-function locations) vs TPV.DeepONet.forward in Float: {maxdiff(impl, model):.3g}", case, impl, model)
+
+
 def net_lines(case, res):
     """driver requests of one net case: fwd fast, fwd plain, out (exact contraction), vjp"""
     x = trunk_tensor(case).tolist()
@@ -801,6 +874,8 @@ def evaluate(case):
     if k == "net":
         res = run_net(case)
         return res, net_lines(case, res)
+    if k == "uniq":
+        return run_uniq(case), uniq_lines(case)
     if k == "lin":
         return run_lin(case), [lin_line(case)]
     if k == "mesh":
@@ -814,6 +889,8 @@ def judge(rep, case, res, replies):
     k = case["kind"]
     if k == "net":
         judge_net(rep, case, res, replies)
+    elif k == "uniq":
+        judge_uniq(rep, case, res, replies[0])
     elif k == "lin":
         judge_lin(rep, case, res, replies[0])
     elif k == "mesh":
@@ -824,8 +901,8 @@ def judge(rep, case, res, replies):
 
 def key_of(case):
     k = case["kind"]
-    if k == "net":
-        return ["net", case["din"], case["d"], case["neurons"], case["trunk_hidden"], case["branch_hidden"], case["fdim"],
+    if k in ("net", "uniq"):
+        return [k, case["din"], case["d"], case["neurons"], case["trunk_hidden"], case["branch_hidden"], case["fdim"],
                 case["B"], case["N"], case["rank"], case["primary"], len(case["pts"])]
     if k == "lin":
         return ["lin", shape_of(case["x"]), shape_of(case["W"]), case["b"] is not None, case["shared"]]
@@ -836,7 +913,7 @@ def key_of(case):
 
 def nontrivial(case):
     k = case["kind"]
-    if k == "net":
+    if k in ("net", "uniq"):
         return case["B"] * case["N"] >= 2 and case["primary"] != "tensor3bad"
     if k == "lin":
         return len(case["W"]) * len(case["W"][0]) >= 2
@@ -850,6 +927,9 @@ def sample_of(case, res, replies):
     if k == "net":
         return dict(kind="net", arch=key_of(case), implementation_output=res.get("fast") if not isinstance(res.get("fast"), list) else res["fast"][0][:2],
                     fast_vs_plain_maxreldiff=res.get("o4"), variants_maxdiff=res.get("variants"), model_reply_head=replies[0][:60])
+    if k == "uniq":
+        return dict(kind="uniq", arch=key_of(case), implementation_output=res["plain"][0][:2] if isinstance(res.get("plain"), list) else res.get("plain"),
+                    model_reply_head=replies[0][:60])
     if k == "lin":
         return dict(kind="lin", case=case, implementation=res.get("fast"), model=replies[0])
     if k == "mesh":
